@@ -1,3 +1,6 @@
 //! Protobuf track: code shared by `rt` (runtime-level verbs, dynamic messages) and `pbrun` (emitted code).
 pub mod sv;
+#[macro_use]
 pub mod rtverbs;
+pub mod dynmsg;
+pub mod msgverbs;
